@@ -54,13 +54,20 @@ pub fn decode_case(tape: &[u32], style: u8, cache: usize, seq_raw: &[Vec<u16>], 
 /// regex-focused cases: patterns and subjects come from the data, drawn from a pool of
 /// near-duplicates (whitespace, case, long common prefixes), and a cache is configured
 pub fn regex_case(tape: &[u32], style: u8, seq_raw: &[Vec<u16>], gap_seed: u64) -> Case11 {
-    const PATS: &[&str] = &["a", "a ", " a", "A", "ab", "ba", "a+", "a+ ", "^a", "^a ", "aaaaaaaaaaaaaaaab", "aaaaaaaaaaaaaaaac", "(?i)a", "[0-9", "b"];
+    // (the last five: the same subject under patterns with one, two and three groups, so that a
+    // later record asks for a group the earlier record's pattern does not have)
+    const PATS: &[&str] = &["a", "a ", " a", "A", "ab", "ba", "a+", "a+ ", "^a", "^a ", "aaaaaaaaaaaaaaaab", "aaaaaaaaaaaaaaaac", "(?i)a", "[0-9", "b", "(a)", "(a)(b)", "(a)(b)?(a)?", "(b)(a)", "((a)(b))"];
     const SUBJ: &[&str] = &["a", "a ", " a", "A", "ab", "ba", "b", "aaaaaaaaaaaaaaaab", "aaaaaaaaaaaaaaaac", ""];
     let mut t = Tape::new(tape);
     let m = |s: &str, p: Expr| Expr::call("match", vec![Expr::key(0, s), p]);
     let re = Expr::key(0, "re");
     let mut pipe = EPipe { sets: vec![], split: None, filter: None, selects: vec![] };
-    match t.below(4) {
+    match t.below(5) {
+        4 => {
+            for g in 0..4 {
+                pipe.selects.push((Expr::call("extract_regex_group", vec![Expr::key(0, "s"), re.clone(), Expr::lit(&g.to_string())]), format!("g{}", g)));
+            }
+        }
         0 => pipe.selects.push((m("s", re.clone()), "m".into())),
         1 => {
             pipe.filter = Some(m("s", re.clone()));
